@@ -416,8 +416,22 @@ class Expander:
         for modname, m in self.modules.items():
             if modname.startswith("_fixture"):
                 continue
+            if drop_logging(m):
+                drop_reraise_handlers(m.tree)
             inline_new_constants(m, self.modules)
-        bind_new_parameters(self.modules)
+        if bind_new_parameters(self.modules):
+            # a bound option often kills the only branch that passed another new option on (`if skip_flat: f(skip_flat=True)`):
+            # fold the decided tests and look again
+            for _ in range(4):
+                for modname, m in self.modules.items():
+                    if not modname.startswith("_fixture"):
+                        fold_constant_tests(m.tree)
+                if fold_constant_attributes(self.modules):
+                    for modname, m in self.modules.items():
+                        if not modname.startswith("_fixture"):
+                            propagate_literal_locals(m.tree)
+                            fold_constant_tests(m.tree)
+                bind_new_parameters(self.modules)
         drop_default_arguments(self.modules)
         for modname, m in self.modules.items():
             if modname.startswith("_fixture"):
@@ -441,6 +455,7 @@ class Expander:
                     for s in node.body:
                         if isinstance(s, ast.FunctionDef):
                             self._do_function(modname, node, s)
+            drop_empty_fast_paths(m.tree)
             fold_constant_tests(m.tree)
             split_chained_assignments(m.tree)
             collapse_copies(m.tree)
@@ -970,6 +985,8 @@ def bind_new_parameters(modules) -> int:
     by_name: Dict[str, list] = {}
     for c in cands:
         by_name.setdefault(c[0].name, []).append(c)
+        if c[0].name == "__init__" and "." in c[1].split(":")[1]:
+            by_name.setdefault(c[1].split(":")[1].split(".")[0], []).append(c)      # `C(...)` calls C.__init__
     new_params_of = {}
     for fn, qual, pn, d, posn in cands:
         new_params_of.setdefault(id(fn), {})[pn] = d
@@ -977,6 +994,29 @@ def bind_new_parameters(modules) -> int:
     ok = {(id(c[0]), c[2]): True for c in cands}
     sites = []
     forwards = []
+    # class families by simple name: a call through self / super() / cls reaches only the enclosing class's relatives
+    bases_of: Dict[str, Set[str]] = {}
+    cls_of_fn: Dict[int, str] = {}
+    for modname, m in modules.items():
+        for node in ast.walk(m.tree):
+            if isinstance(node, ast.ClassDef):
+                bases_of.setdefault(node.name, set()).update(ast.unparse(b).split(".")[-1] for b in node.bases)
+                for s_ in node.body:
+                    if isinstance(s_, ast.FunctionDef):
+                        cls_of_fn[id(s_)] = node.name
+
+    def _ancestors(c):
+        seen, st_ = set(), [c]
+        while st_:
+            x = st_.pop()
+            for b in bases_of.get(x, ()):
+                if b not in seen:
+                    seen.add(b)
+                    st_.append(b)
+        return seen
+
+    def _related(a, b):
+        return a == b or a in _ancestors(b) or b in _ancestors(a)
     for modname, m in modules.items():
         for fn_ in [n for n in ast.walk(m.tree) if isinstance(n, ast.FunctionDef)] + [m.tree]:
             own = new_params_of.get(id(fn_), {})
@@ -987,11 +1027,38 @@ def bind_new_parameters(modules) -> int:
                 nm = c.func.attr if isinstance(c.func, ast.Attribute) else (c.func.id if isinstance(c.func, ast.Name) else None)
                 for cand in by_name.get(nm, ()):
                     fn, qual, pn, d, posn = cand
+                    here = cls_of_fn.get(id(fn_))
+                    recv = ast.unparse(c.func.value) if isinstance(c.func, ast.Attribute) else None
+                    if here is not None and recv in ("self", "super()", "cls") and "." in qual.split(":")[1] and not _related(here, qual.split(":")[1].split(".")[0]):
+                        continue        # e.g. IEvent's `self.__init__(*args, **kwargs)` is not a call of TradingEnv.__init__
+                    explicit = recv in bases_of and "." in qual.split(":")[1] and nm == fn.name        # `Base.__init__(self, ...)`
+                    if explicit:
+                        cc_ = qual.split(":")[1].split(".")[0]
+                        if not (cc_ == recv or cc_ in _ancestors(recv)):
+                            continue
+                        if posn is not None:
+                            posn = posn + 1      # self is passed explicitly
                     passed = [k.value for k in c.keywords if k.arg == pn]
+                    # a positional call that the candidate's reviewed signature could not have taken, but that fits the reviewed
+                    # signature of another function of that name (`feature.reset(exchange, action_space, broker)` is not
+                    # `TradingEnv.reset(fold, episode_length)`): not a call of the candidate
+                    old_n = len([a_ for a_ in _KNOWN_SIGS.get(qual, []) if a_ not in ("self", "cls")])
+                    if posn is not None and len(c.args) > max(posn, old_n) and not c.keywords and qual in _KNOWN_SIGS and any(
+                            q2 != qual and q2.split(":")[1].split(".")[-1] == nm and len([a_ for a_ in sig2 if a_ not in ("self", "cls")]) >= len(c.args) for q2, sig2 in _KNOWN_SIGS.items()):
+                        continue
                     if posn is not None and len(c.args) > posn and not any(isinstance(a_, ast.Starred) for a_ in c.args):
                         passed.append(c.args[posn])
-                    if any(k.arg is None for k in c.keywords) or any(isinstance(a_, ast.Starred) for a_ in c.args):
+                    if any(isinstance(a_, ast.Starred) for a_ in c.args):
                         ok[(id(fn), pn)] = False
+                    if any(k.arg is None for k in c.keywords):
+                        # `f(**options)`: under the reviewed usage the mapping cannot carry an option that did not exist - unless the
+                        # enclosing function itself spells the key (a display / dict(...) / subscript store with that name)
+                        scope = fn_ if fn_ is not m.tree else None
+                        spelled = scope is None or any((isinstance(x, ast.Constant) and x.value == pn and not (isinstance(getattr(x, "_doc", None), bool)))
+                                                       or (isinstance(x, ast.keyword) and x.arg == pn and x not in c.keywords) for x in ast.walk(scope)
+                                                       if not (isinstance(x, ast.Constant) and isinstance(x.value, str) and len(x.value) > 60))
+                        if spelled:
+                            ok[(id(fn), pn)] = False
                     for v in passed:
                         same = ast.dump(v) == ast.dump(d) or (isinstance(v, ast.Name) and v.id in own and ast.dump(own[v.id]) == ast.dump(d))
                         if not same:
@@ -1016,6 +1083,8 @@ def bind_new_parameters(modules) -> int:
         nested = any(isinstance(x, (ast.FunctionDef, ast.Lambda)) and x is not fn for x in ast.walk(fn))
         if stored or nested:
             k = 1 if fn.body and isinstance(fn.body[0], ast.Expr) and isinstance(fn.body[0].value, ast.Constant) and isinstance(fn.body[0].value.value, str) else 0
+            if len(fn.body) > k and isinstance(fn.body[k], ast.Assign) and ast.unparse(fn.body[k]) == f"{pn} = {ast.unparse(d)}":
+                continue        # bound in an earlier pass
             st = ast.Assign(targets=[ast.Name(id=pn, ctx=ast.Store())], value=_clone(d))
             ast.copy_location(st, fn.body[k] if len(fn.body) > k else fn)
             ast.fix_missing_locations(st)
@@ -1036,6 +1105,240 @@ def bind_new_parameters(modules) -> int:
         c.keywords = [k for k in c.keywords if k.arg != pn]
         if posn is not None and len(c.args) == posn + 1:
             c.args = c.args[:posn]
+    return n
+
+
+def fold_constant_attributes(modules) -> int:
+    """An attribute that every store in the package sets to one and the same literal (after new options were bound to their
+    defaults: `self._record = bool(False)`, class-level `_record = False`) holds that literal: its reads through `self` are
+    replaced by it, so that the branches it switches off fold away. Attributes stored anywhere with anything else are left alone."""
+    def lit(v):
+        if isinstance(v, ast.Call) and isinstance(v.func, ast.Name) and v.func.id == "bool" and len(v.args) == 1 and not v.keywords and isinstance(v.args[0], ast.Constant):
+            return ast.Constant(value=bool(v.args[0].value))
+        if isinstance(v, ast.Constant) and (v.value is None or isinstance(v.value, (bool, int, float, str))):
+            return v
+        return None
+    stores: Dict[str, list] = {}
+    # functions new to the inventory whose name nothing else in the package mentions: added API surface, outside the reviewed usage
+    known = known_functions()
+    new_api_nodes = set()
+    if known:
+        cand_fns = []
+        for modname, m in modules.items():
+            if modname.startswith("_fixture"):
+                continue
+            for node in m.tree.body:
+                if isinstance(node, ast.ClassDef):
+                    for s_ in node.body:
+                        if isinstance(s_, ast.FunctionDef) and f"{modname}:{node.name}.{s_.name}" not in known and not s_.name.startswith("__"):
+                            cand_fns.append(s_)
+        for fn in cand_fns:
+            inside = {id(x) for x in ast.walk(fn)}
+            mentioned = False
+            for modname, m in modules.items():
+                for x in ast.walk(m.tree):
+                    if id(x) in inside:
+                        continue
+                    if (isinstance(x, ast.Attribute) and x.attr == fn.name) or (isinstance(x, ast.Name) and x.id == fn.name) or (isinstance(x, ast.Constant) and x.value == fn.name):
+                        mentioned = True
+                        break
+                if mentioned:
+                    break
+            if not mentioned:
+                new_api_nodes |= inside
+    for modname, m in modules.items():
+        for node in ast.walk(m.tree):
+            if id(node) in new_api_nodes:
+                continue
+            tv = []
+            if isinstance(node, ast.Assign):
+                for t in node.targets:
+                    for e in (t.elts if isinstance(t, (ast.Tuple, ast.List)) else [t]):
+                        tv.append((e, node.value if not isinstance(t, (ast.Tuple, ast.List)) else None))
+            elif isinstance(node, ast.AnnAssign) and node.value is not None:
+                tv.append((node.target, node.value))
+            elif isinstance(node, ast.AugAssign):
+                tv.append((node.target, None))
+            elif isinstance(node, (ast.For, ast.With, ast.Delete, ast.NamedExpr)):
+                for x in ast.walk(node):
+                    if isinstance(x, ast.Attribute) and isinstance(x.ctx, (ast.Store, ast.Del)):
+                        stores.setdefault(x.attr, []).append(None)
+            for t, v in tv:
+                if isinstance(t, ast.Attribute):
+                    stores.setdefault(t.attr, []).append(lit(v) if v is not None else None)
+                elif isinstance(t, ast.Name) and isinstance(getattr(node, "_cls_level", None), bool):
+                    pass
+        for node in ast.walk(m.tree):
+            if isinstance(node, ast.ClassDef):
+                for s_ in node.body:
+                    if isinstance(s_, ast.Assign):
+                        for t in s_.targets:
+                            if isinstance(t, ast.Name):
+                                stores.setdefault(t.id, []).append(lit(s_.value))
+                    elif isinstance(s_, ast.AnnAssign) and isinstance(s_.target, ast.Name) and s_.value is not None:
+                        stores.setdefault(s_.target.id, []).append(lit(s_.value))
+            if isinstance(node, ast.Call) and isinstance(node.func, ast.Name) and node.func.id in ("setattr", "delattr"):
+                nm_ = node.args[1] if len(node.args) > 1 else None
+                if isinstance(nm_, ast.Constant) and isinstance(nm_.value, str):
+                    stores.setdefault(nm_.value, []).append(None)
+                elif not (isinstance(nm_, ast.Attribute) and nm_.attr == "__name__"):      # registering a function under its own name (metrics accessors) stores no data attribute
+                    return 0
+    const = {}
+    for a, vs in stores.items():
+        if a.startswith("__") or not vs or any(v is None for v in vs):
+            continue
+        if len({ast.dump(v) for v in vs}) == 1 and any(True for _ in vs):
+            const[a] = vs[0]
+    # only attributes that are stored through an instance somewhere, or that are new to the reviewed tree (sa/known_attributes.json);
+    # a class-level constant of the reviewed tree is reviewed configuration and is left as it is
+    try:
+        with open(os.path.join(_HERE, "known_attributes.json")) as fh:
+            known_attrs = set(json.load(fh))
+    except OSError:
+        known_attrs = None
+    inst = set()
+    for modname, m in modules.items():
+        for node in ast.walk(m.tree):
+            if isinstance(node, ast.Attribute) and isinstance(node.ctx, ast.Store) and node.attr in const:
+                inst.add(node.attr)
+    if known_attrs is not None:
+        inst |= {a for a in const if a not in known_attrs}
+    n = 0
+    for modname, m in modules.items():
+        if modname.startswith("_fixture"):
+            continue
+        for node in ast.walk(m.tree):
+            for f_, val in ast.iter_fields(node):
+                vals = val if isinstance(val, list) else [val]
+                for i_, v in enumerate(vals):
+                    if isinstance(v, ast.Attribute) and isinstance(v.ctx, ast.Load) and v.attr in inst and isinstance(v.value, ast.Name) and v.value.id == "self":
+                        r = ast.copy_location(_clone(const[v.attr]), v)
+                        if isinstance(val, list):
+                            val[i_] = r
+                        else:
+                            setattr(node, f_, r)
+                        n += 1
+    return n
+
+
+def propagate_literal_locals(tree: ast.AST) -> int:
+    """`t = None` (a literal, the only binding of t in the function, at its top level, before every use) makes every read of t
+    that literal."""
+    n = 0
+    for fn in [x for x in ast.walk(tree) if isinstance(x, ast.FunctionDef)]:
+        if any(isinstance(x, (ast.FunctionDef, ast.Lambda, ast.ClassDef)) and x is not fn for x in ast.walk(fn)):
+            continue
+        params = {a.arg for a in fn.args.posonlyargs + fn.args.args + fn.args.kwonlyargs} | ({fn.args.vararg.arg} if fn.args.vararg else set()) | ({fn.args.kwarg.arg} if fn.args.kwarg else set())
+        stores: Dict[str, int] = {}
+        for x in ast.walk(fn):
+            if isinstance(x, ast.Name) and isinstance(x.ctx, (ast.Store, ast.Del)):
+                stores[x.id] = stores.get(x.id, 0) + 1
+            elif isinstance(x, (ast.Global, ast.Nonlocal)):
+                for nm in x.names:
+                    stores[nm] = 99
+        for st in list(fn.body):
+            if not (isinstance(st, ast.Assign) and len(st.targets) == 1 and isinstance(st.targets[0], ast.Name) and isinstance(st.value, ast.Constant)
+                    and (st.value.value is None or isinstance(st.value.value, (bool, int, float, str)))):
+                continue
+            nm = st.targets[0].id
+            if nm in params or stores.get(nm) != 1:
+                continue
+            loads = [x for x in ast.walk(fn) if isinstance(x, ast.Name) and x.id == nm and isinstance(x.ctx, ast.Load)]
+            if not loads or any(x.lineno <= st.lineno for x in loads):
+                continue
+            for node in ast.walk(fn):
+                for f_, val in ast.iter_fields(node):
+                    vals = val if isinstance(val, list) else [val]
+                    for i_, v in enumerate(vals):
+                        if isinstance(v, ast.Name) and v.id == nm and isinstance(v.ctx, ast.Load):
+                            r = ast.copy_location(_clone(st.value), v)
+                            if isinstance(val, list):
+                                val[i_] = r
+                            else:
+                                setattr(node, f_, r)
+                            n += 1
+            fn.body[fn.body.index(st)] = ast.copy_location(ast.Pass(), st)
+    return n
+
+
+_LOG_METHODS = {"debug", "info", "warning", "error", "exception", "critical", "log"}
+_LOG_ARG_CALLS = {"len", "repr", "str", "float", "int", "type", "sorted", "list", "tuple", "dict", "set", "abs", "round", "id", "bool"}
+
+
+def drop_logging(m) -> int:
+    """Statements that only emit a log record through a module-level `logging.getLogger(...)` logger - `logger.debug("...", a, b)`,
+    and `if logger.isEnabledFor(...):` blocks made of such statements - are dropped, provided their arguments call nothing but
+    pure builtins / `.get` / `.format` / `.items` (formatting a record changes nothing the rules read; an argument that calls
+    into the package, e.g. a valuation, stays visible)."""
+    loggers = set()
+    for st in m.tree.body:
+        if isinstance(st, ast.Assign) and isinstance(st.value, ast.Call) and ast.unparse(st.value.func) in ("logging.getLogger", "getLogger"):
+            loggers |= {t.id for t in st.targets if isinstance(t, ast.Name)}
+    if not loggers:
+        return 0
+
+    def args_pure(c):
+        for a in list(c.args) + [k.value for k in c.keywords]:
+            for x in ast.walk(a):
+                if isinstance(x, ast.Call):
+                    fn = x.func
+                    if isinstance(fn, ast.Name) and fn.id in _LOG_ARG_CALLS:
+                        continue
+                    if isinstance(fn, ast.Attribute) and fn.attr in ("get", "format", "items", "keys", "values", "isoformat", "total_seconds", "join", "copy"):
+                        continue
+                    return False
+                if isinstance(x, (ast.NamedExpr, ast.Await, ast.Yield, ast.YieldFrom)):
+                    return False
+        return True
+
+    def is_log(st):
+        return isinstance(st, ast.Expr) and isinstance(st.value, ast.Call) and isinstance(st.value.func, ast.Attribute) and st.value.func.attr in _LOG_METHODS \
+            and isinstance(st.value.func.value, ast.Name) and st.value.func.value.id in loggers and args_pure(st.value)
+
+    def is_log_block(st):
+        if is_log(st) or isinstance(st, ast.Pass):
+            return True
+        if isinstance(st, ast.If) and not st.orelse and isinstance(st.test, ast.Call) and isinstance(st.test.func, ast.Attribute) and st.test.func.attr == "isEnabledFor" \
+                and isinstance(st.test.func.value, ast.Name) and st.test.func.value.id in loggers:
+            return all(is_log_block(b) for b in st.body)
+        return False
+    n = 0
+    for owner in ast.walk(m.tree):
+        for field in ("body", "orelse", "finalbody"):
+            blk = getattr(owner, field, None)
+            if not (isinstance(blk, list) and blk and isinstance(blk[0], ast.stmt)):
+                continue
+            keep = [st for st in blk if isinstance(st, ast.Pass) or not is_log_block(st)]
+            if len(keep) != len(blk):
+                n += len(blk) - len(keep)
+                blk[:] = keep or [ast.copy_location(ast.Pass(), blk[0])]      # a block must not become empty
+    return n
+
+
+def drop_reraise_handlers(tree: ast.AST) -> int:
+    """`except E: raise` (nothing but the bare re-raise, e.g. once a log line was dropped) handles nothing: the handler goes, and
+    a `try` left without handlers or `finally` is its body followed by its `else`."""
+    n = 0
+    for owner in ast.walk(tree):
+        for field in ("body", "orelse", "finalbody"):
+            blk = getattr(owner, field, None)
+            if not (isinstance(blk, list) and blk and isinstance(blk[0], ast.stmt)):
+                continue
+            i = 0
+            while i < len(blk):
+                st = blk[i]
+                if isinstance(st, ast.Try) and st.handlers:
+                    def only_reraise(h):
+                        body = [b for b in h.body if not isinstance(b, ast.Pass)]
+                        return len(body) == 1 and isinstance(body[0], ast.Raise) and body[0].exc is None and body[0].cause is None
+                    # a re-raising handler may only be dropped when no later handler could have caught what it lets through: drop from the end
+                    while st.handlers and only_reraise(st.handlers[-1]):
+                        st.handlers.pop()
+                        n += 1
+                    if not st.handlers and not st.finalbody:
+                        blk[i:i + 1] = list(st.body) + list(st.orelse)
+                        continue
+                i += 1
     return n
 
 
@@ -1129,6 +1432,142 @@ def drop_default_arguments(modules) -> int:
     return n
 
 
+_EMPTY_CTOR_SAME = {"Weights", "NrContracts", "_Allocation", "cls"}      # X({}) is X(): _Allocation.__init__ reads a missing mapping as an empty one (rules/common REF_ALLOC_INIT checks that constructor)
+
+
+def _empty_test_subject(test: ast.AST) -> Optional[ast.AST]:
+    """K for `not K`, `len(K) == 0`, `not len(K)`"""
+    t = test
+    if isinstance(t, ast.UnaryOp) and isinstance(t.op, ast.Not):
+        t = t.operand
+    elif isinstance(t, ast.Compare) and len(t.ops) == 1 and isinstance(t.ops[0], ast.Eq) and isinstance(t.comparators[0], ast.Constant) and t.comparators[0].value == 0 \
+            and isinstance(t.left, ast.Call) and isinstance(t.left.func, ast.Name) and t.left.func.id == "len":
+        t = t.left
+    else:
+        return None
+    if isinstance(t, ast.Call) and isinstance(t.func, ast.Name) and t.func.id == "len" and len(t.args) == 1 and not t.keywords:
+        t = t.args[0]
+    if isinstance(t, (ast.Name, ast.Attribute)) and not any(isinstance(x, ast.Call) for x in ast.walk(t)):
+        return t
+    return None
+
+
+def _ranges_over(it: ast.AST, k: str) -> bool:
+    u = ast.unparse(it)
+    return u in (k, f"{k}.items()", f"{k}.keys()", f"{k}.values()", f"list({k})", f"list({k}.items())", f"tuple({k})", f"sorted({k})", f"enumerate({k})", f"enumerate({k}.items())", f"iter({k})")
+
+
+class _EmptyOut(ast.NodeTransformer):
+    """expression under `K is empty`: comprehensions over K become empty displays, locals are replaced by their bindings"""
+    def __init__(self, k, env):
+        self.k, self.env = k, env
+
+    def visit_Name(self, n):
+        if isinstance(n.ctx, ast.Load) and n.id in self.env:
+            return _clone(self.env[n.id])
+        return n
+
+    def _comp(self, n, empty):
+        if len(n.generators) >= 1 and _ranges_over(n.generators[0].iter, self.k):
+            return ast.copy_location(empty, n)
+        return self.generic_visit(n)
+
+    def visit_DictComp(self, n):
+        return self._comp(n, ast.Dict(keys=[], values=[]))
+
+    def visit_ListComp(self, n):
+        return self._comp(n, ast.List(elts=[], ctx=ast.Load()))
+
+    def visit_SetComp(self, n):
+        return self._comp(n, ast.Call(func=ast.Name(id="set", ctx=ast.Load()), args=[], keywords=[]))
+
+    def visit_GeneratorExp(self, n):
+        return self._comp(n, ast.Tuple(elts=[], ctx=ast.Load()))
+
+
+def _empty_norm(e: ast.AST) -> str:
+    class N(ast.NodeTransformer):
+        def visit_Call(self, c):
+            self.generic_visit(c)
+            if isinstance(c.func, ast.Name) and not c.keywords:
+                if c.func.id == "dict" and not c.args:
+                    return ast.Dict(keys=[], values=[])
+                if c.func.id == "list" and (not c.args or (len(c.args) == 1 and isinstance(c.args[0], (ast.List, ast.Tuple)) and not c.args[0].elts)):
+                    return ast.List(elts=[], ctx=ast.Load())
+                if c.func.id == "tuple" and not c.args:
+                    return ast.Tuple(elts=[], ctx=ast.Load())
+                if c.func.id in _EMPTY_CTOR_SAME and len(c.args) == 1 and ((isinstance(c.args[0], ast.Dict) and not c.args[0].keys) or (isinstance(c.args[0], (ast.List, ast.Tuple)) and not c.args[0].elts)):
+                    return ast.Call(func=c.func, args=[], keywords=[])
+            return c
+    return ast.unparse(N().visit(_clone(e)))
+
+
+def _pure_binding(v: ast.AST) -> bool:
+    for x in ast.walk(v):
+        if isinstance(x, ast.Call):
+            if isinstance(x.func, ast.Name) and x.func.id in ("dict", "list", "set", "tuple", "defaultdict") and not x.args and not x.keywords:
+                continue
+            if ast.unparse(x.func) in ("datetime", "timedelta", "datetime.datetime", "datetime.timedelta", "pd.Timestamp", "pd.Timedelta", "float", "int") and not x.keywords \
+                    and all(isinstance(a_, ast.Constant) for a_ in x.args):
+                continue        # a value object built from literals
+            return False
+        if isinstance(x, (ast.Await, ast.Yield, ast.YieldFrom, ast.NamedExpr, ast.Lambda, ast.Subscript)):
+            return False
+    return True
+
+
+def drop_empty_fast_paths(tree: ast.AST) -> int:
+    """`if not K: return E0` at the top level of a function, where the statements after it - run with K empty - do nothing but
+    bind locals to effect-free values, skip loops over K and return a value that is E0 (comprehensions over K being empty):
+    the guard is a fast path for the empty collection and is dropped, so that the function reads as its general path."""
+    n = 0
+    for fn in [x for x in ast.walk(tree) if isinstance(x, ast.FunctionDef)]:
+        i = 0
+        while i < len(fn.body):
+            st = fn.body[i]
+            i += 1
+            if not (isinstance(st, ast.If) and not st.orelse and len(st.body) == 1 and isinstance(st.body[0], ast.Return)):
+                continue
+            K = _empty_test_subject(st.test)
+            if K is None:
+                continue
+            k = ast.unparse(K)
+            env: Dict[str, ast.AST] = {}
+            verdict = None
+            for r in fn.body[i:]:
+                if (isinstance(r, ast.Expr) and isinstance(r.value, ast.Constant)) or isinstance(r, ast.Pass):
+                    continue
+                if isinstance(r, ast.Assign) and len(r.targets) == 1 and isinstance(r.targets[0], ast.Name) and r.targets[0].id != k.split(".")[0]:
+                    v = _EmptyOut(k, env).visit(_clone(r.value))
+                    if not _pure_binding(v):
+                        break
+                    env[r.targets[0].id] = v
+                    continue
+                if isinstance(r, ast.AnnAssign) and isinstance(r.target, ast.Name) and r.value is not None and r.target.id != k.split(".")[0]:
+                    v = _EmptyOut(k, env).visit(_clone(r.value))
+                    if not _pure_binding(v):
+                        break
+                    env[r.target.id] = v
+                    continue
+                if isinstance(r, ast.For) and not r.orelse and _ranges_over(r.iter, k):
+                    continue
+                if isinstance(r, ast.Return):
+                    none_ = ast.Constant(value=None)
+                    got = _EmptyOut(k, env).visit(_clone(r.value if r.value is not None else none_))
+                    e0 = _EmptyOut(k, {}).visit(_clone(st.body[0].value if st.body[0].value is not None else none_))
+                    verdict = _empty_norm(got) == _empty_norm(e0)
+                    break
+                break
+            else:
+                # fell off the end of the function: returns None
+                verdict = st.body[0].value is None or (isinstance(st.body[0].value, ast.Constant) and st.body[0].value.value is None)
+            if verdict:
+                i -= 1
+                del fn.body[i]
+                n += 1
+    return n
+
+
 def fold_constant_tests(tree: ast.AST):
     """`if True:` / `if not False:` ... (a literal flag, typically a helper's boolean parameter bound at the call site by an
     expansion): only the live arm remains; `A if True else B` is A."""
@@ -1138,6 +1577,28 @@ def fold_constant_tests(tree: ast.AST):
             t, neg = t.operand, not neg
         if isinstance(t, ast.Constant) and isinstance(t.value, bool):
             return t.value != neg
+        if isinstance(t, ast.Constant) and t.value is None:
+            return False != neg
+        # literal identity tests: `None is None`, `False is not None`, `0 is None`
+        if isinstance(t, ast.Compare) and len(t.ops) == 1 and isinstance(t.ops[0], (ast.Is, ast.IsNot)) and isinstance(t.left, ast.Constant) and isinstance(t.comparators[0], ast.Constant) \
+                and (t.left.value is None or t.comparators[0].value is None):
+            same = t.left.value is None and t.comparators[0].value is None
+            return (same if isinstance(t.ops[0], ast.Is) else not same) != neg
+        # `False and X`, `p and False` (p without calls), `True or X`: decided by the literal
+        if isinstance(t, ast.BoolOp):
+            is_and = isinstance(t.op, ast.And)
+            pure_so_far = True
+            all_neutral = True
+            for v in t.values:
+                tv = truth(v)
+                if tv is not None and tv == (not is_and) and pure_so_far:
+                    return (not is_and) != neg
+                if tv is None or tv != is_and:
+                    all_neutral = False
+                if any(isinstance(x, (ast.Call, ast.NamedExpr, ast.Await, ast.Yield, ast.YieldFrom)) for x in ast.walk(v)):
+                    pure_so_far = False
+            if all_neutral:
+                return is_and != neg
         return None
     for owner in ast.walk(tree):
         for field in ("body", "orelse", "finalbody"):
@@ -1152,6 +1613,9 @@ def fold_constant_tests(tree: ast.AST):
                     if tv is not None:
                         live = st.body if tv else st.orelse
                         blk[i:i + 1] = live or [ast.copy_location(ast.Pass(), st)]
+                        # what follows an arm that always leaves is dead now
+                        if live and isinstance(live[-1], (ast.Return, ast.Raise, ast.Continue, ast.Break)):
+                            del blk[i + len(live):]
                         continue
                 i += 1
     for node in ast.walk(tree):
@@ -1779,9 +2243,15 @@ def loops_to_comprehensions(tree: ast.AST):
                         bound = {x.id for x in ast.walk(loop.target) if isinstance(x, ast.Name)}
                         later = _free_loads(blk[i + 1:], bound)
                         if not later:
-                            src = exts[0].value.args[0]
+                            def _iter_default(e_):
+                                # `m.get(k, ())` that is only iterated is `m.get(k, [])`
+                                if isinstance(e_, ast.Call) and isinstance(e_.func, ast.Attribute) and e_.func.attr == "get" and len(e_.args) == 2 and not e_.keywords \
+                                        and ((isinstance(e_.args[1], ast.Tuple) and not e_.args[1].elts) or (isinstance(e_.args[1], ast.Call) and ast.unparse(e_.args[1]) in ("tuple()", "list()"))):
+                                    e_.args[1] = ast.copy_location(ast.List(elts=[], ctx=ast.Load()), e_.args[1])
+                                return e_
+                            src = _iter_default(exts[0].value.args[0])
                             for b in exts[1:]:
-                                src = ast.BinOp(left=src, op=ast.Add(), right=b.value.args[0])
+                                src = ast.BinOp(left=src, op=ast.Add(), right=_iter_default(b.value.args[0]))
                             comp = ast.ListComp(elt=ast.Name(id="_e__flat", ctx=ast.Load()), generators=[ast.comprehension(target=loop.target, iter=loop.iter, ifs=[], is_async=0),
                                                                                                             ast.comprehension(target=ast.Name(id="_e__flat", ctx=ast.Store()), iter=src, ifs=[], is_async=0)])
                             new = ast.copy_location(ast.Assign(targets=[ast.Name(id=d, ctx=ast.Store())], value=comp), init)
@@ -2050,6 +2520,10 @@ def more_spellings(tree: ast.AST):
                 new = _clone(c)
                 new.args[0] = g.generators[0].iter
                 return new
+        # obj.__getitem__(k) is obj[k]
+        if isinstance(c.func, ast.Attribute) and c.func.attr == "__getitem__" and len(c.args) == 1 and not c.keywords and not isinstance(c.args[0], ast.Starred) \
+                and not (isinstance(c.func.value, ast.Call) and ast.unparse(c.func.value.func) == "super"):
+            return ast.copy_location(ast.Subscript(value=c.func.value, slice=c.args[0], ctx=ast.Load()), c)
         if isinstance(c.func, ast.Name) and c.func.id == "zip" and len(c.args) == 2 and not c.keywords:
             a, b = c.args
             if all(isinstance(x, ast.Call) and isinstance(x.func, ast.Attribute) and not x.args and not x.keywords for x in (a, b)) and a.func.attr == "keys" and b.func.attr == "values" \
@@ -2211,7 +2685,9 @@ def bound_method_aliases(tree: ast.AST):
                 stores.setdefault(x.id, []).append(x)
             elif isinstance(x, ast.arg):
                 stores.setdefault(x.arg, []).append(x)
-        for k, st in enumerate(list(fn_.body)):
+        blocks = [fn_.body] + [getattr(o, fld) for o in ast.walk(fn_) if o is not fn_ and not isinstance(o, (ast.FunctionDef, ast.Lambda, ast.ClassDef))
+                               for fld in ("body", "orelse", "finalbody") if isinstance(getattr(o, fld, None), list) and getattr(o, fld) and isinstance(getattr(o, fld)[0], ast.stmt)]
+        for blk_, st in [(b_, s_) for b_ in blocks for s_ in list(b_)]:
             if not (isinstance(st, ast.Assign) and len(st.targets) == 1 and isinstance(st.targets[0], ast.Name) and isinstance(st.value, ast.Attribute) and _pure_path(st.value)):
                 continue
             al = st.targets[0].id
@@ -2220,20 +2696,42 @@ def bound_method_aliases(tree: ast.AST):
             root = st.value
             while isinstance(root, ast.Attribute):
                 root = root.value
-            # the root object is not rebound after the alias is taken (parameters / self: bound once at entry)
-            if any(getattr(x, "lineno", 0) > st.lineno for x in stores.get(root.id, []) if isinstance(x, ast.Name)):
+            # the root object is not rebound after the alias is taken (parameters / self: bound once at entry): no store in what
+            # follows the alias in its block and in the blocks around it, nor anywhere in a loop around it (a sibling branch is not "after")
+            later_ = set()
+            cur_blk, cur_st = blk_, st
+            while cur_blk is not None:
+                later_ |= {id(x) for s_ in cur_blk[[id(s__) for s__ in cur_blk].index(id(cur_st)) + 1:] for x in ast.walk(s_)}
+                nxt = None
+                for o in ast.walk(fn_):
+                    if o is fn_ and cur_blk is fn_.body:
+                        break
+                    for fld in ("body", "orelse", "finalbody", "handlers"):
+                        if getattr(o, fld, None) is cur_blk:
+                            nxt = o
+                if nxt is None or nxt is fn_:
+                    break
+                if isinstance(nxt, (ast.For, ast.While)):
+                    later_ |= {id(x) for x in ast.walk(nxt)}
+                cur_st = nxt
+                cur_blk = next((getattr(o, fld) for o in ast.walk(fn_) for fld in ("body", "orelse", "finalbody") if isinstance(getattr(o, fld, None), list) and any(s_ is nxt for s_ in getattr(o, fld))), None)
+            if any(id(x) in later_ for x in stores.get(root.id, []) if isinstance(x, ast.Name)):
                 continue
             uses = [x for x in ast.walk(fn_) if isinstance(x, ast.Name) and x.id == al and isinstance(x.ctx, ast.Load)]
             callee_ids = {id(c.func) for c in ast.walk(fn_) if isinstance(c, ast.Call)}
             if not uses or not all(id(u) in callee_ids for u in uses) or any(u.lineno <= st.lineno for u in uses):
                 continue
+            if blk_ is not fn_.body:
+                after_ = {id(x) for s_ in blk_[blk_.index(st) + 1:] for x in ast.walk(s_)}
+                if not all(id(u) in after_ for u in uses):
+                    continue        # taken in a branch: every use must follow it inside that branch
             if any(isinstance(x, (ast.FunctionDef, ast.Lambda)) and x is not fn_ and any(isinstance(y, ast.Name) and y.id == al for y in ast.walk(x)) for x in ast.walk(fn_)):
                 continue
             for c in ast.walk(fn_):
                 if isinstance(c, ast.Call) and isinstance(c.func, ast.Name) and c.func.id == al:
                     c.func = ast.copy_location(_clone(st.value), c.func)
                     ast.fix_missing_locations(c)
-            fn_.body[fn_.body.index(st)] = ast.copy_location(ast.Pass(), st)
+            blk_[blk_.index(st)] = ast.copy_location(ast.Pass(), st)
 
 
 def unroll_literal_loops(tree: ast.AST):
